@@ -533,9 +533,22 @@ impl C16 {
             let mat = if (index / 4) < fixed.len() as u64 && index % 4 == 0 {
                 fixed[(index / 4) as usize].clone()
             } else {
-                gen_matrix(&mut rng, if thorough { 8 } else { 6 })
+                gen_matrix(&mut rng, 8)
             };
-            let tols = tolerances();
+            let mut tols = tolerances();
+            // adaptive tolerances: just below the exactly recomputed distance of the
+            // fault-free result, where the test MUST refuse (sharpest use of the
+            // one-directional clause; catches a detector that looks at part of the
+            // residual only)
+            if let (DecOutcome::Ok(d), _) = decompose(&mat, None, &[], false) {
+                if let Some(dist) = exact::l21_distance_exact(&d.inverse, &mat.entries, mat.dim) {
+                    let slack = 8.0 * mat.dim as f64 * 2f64.powi(-53) * exact::abs_product_norm(&d.inverse, &mat.entries, mat.dim);
+                    if dist.is_finite() && dist > 8.0 * slack && dist > 0.0 {
+                        tols.push(Some((0.5 * dist).to_bits()));
+                        tols.push(Some((0.8 * dist).to_bits()));
+                    }
+                }
+            }
             // fault-free: every tolerance
             for t in &tols {
                 cases.push(Case::Direct { mat: mat.clone(), tol: *t, faults: vec![] });
